@@ -72,6 +72,10 @@ pub struct Mode {
     pub max_execs: u64,
     pub max_model_states: usize,
     pub max_violations_per_program: usize,
+    /// only the first N programs of the set (simplest first)
+    pub max_programs: usize,
+    /// additionally explore "scheduler returns None here" at every decision
+    pub stop_children: bool,
 }
 
 impl Default for Mode {
@@ -84,6 +88,8 @@ impl Default for Mode {
             max_execs: 300_000,
             max_model_states: 2_000_000,
             max_violations_per_program: 3,
+            max_programs: usize::MAX,
+            stop_children: false,
         }
     }
 }
@@ -203,6 +209,7 @@ pub fn check_program<F: Family>(idx: usize, prog: &Program<F>, mode: &Mode) -> P
     let arc = Arc::new(SS(prog.clone()));
     let opts = Options {
         preemption_bound: mode.preemption_bound,
+        stop_children: mode.stop_children,
         ..Options::default()
     };
     let mut impl_outcomes: BTreeSet<Outcome<F::Res>> = BTreeSet::new();
@@ -306,8 +313,41 @@ pub fn check_program<F: Family>(idx: usize, prog: &Program<F>, mode: &Mode) -> P
     rep.traces_validated = validated;
     rep.impl_outcomes = impl_outcomes.len();
     rep.sample = sample;
-    if mode.complete && rep.full_tree && !ms.capped && rep.machinery_error.is_none() {
+    // abort timing is modelled loosely (cancellation at any later poll), so the model's outcome set
+    // is an over-approximation for programs that abort: completeness is not judged there
+    let has_abort = prog.threads.iter().flatten().any(|o| matches!(o, GOp::Abort(_)));
+    if mode.complete && rep.full_tree && !ms.capped && rep.machinery_error.is_none() && !mode.stop_children && !has_abort {
+        let missing: Vec<&Outcome<F::Res>> = m_strict_norm.iter().filter(|o| !impl_outcomes.contains(*o)).collect();
+        // attribute to the recorded no-scheduling-point findings if the fused model explains them
+        let known = no_sched_findings(prog);
+        let mut attributed = false;
+        if !missing.is_empty() && !known.is_empty() {
+            let (fused, _) = model_outcomes_ex(prog, true, mode.max_model_states, true);
+            let fused_norm: BTreeSet<Outcome<F::Res>> = fused.iter().map(|o| normalise(o, &model_panics)).collect();
+            if fused_norm.iter().all(|o| impl_outcomes.contains(o)) {
+                attributed = true;
+                viols.push(Violation {
+                    kind: VKind::Known(known.join("+")),
+                    culprit: known.join("+"),
+                    family: F::NAME.into(),
+                    program_idx: idx,
+                    program: desc.clone(),
+                    op_kinds: kinds.clone(),
+                    what: format!(
+                        "{} outcome(s) of the sequentially consistent model are produced by none of the {} schedules, e.g. {:?}; all outcomes of the model with the listed operations fused to the preceding operation of their thread are produced",
+                        missing.len(),
+                        rep.executions,
+                        missing[0]
+                    ),
+                    alts: vec![],
+                    choices: vec![],
+                });
+            }
+        }
         for o in &m_strict_norm {
+            if attributed {
+                break;
+            }
             if !impl_outcomes.contains(o) {
                 if viols.len() < maxv + 2 {
                     viols.push(Violation {
@@ -345,6 +385,8 @@ impl Serialize for Mode {
             "sound": self.sound, "complete": self.complete, "check_enabled": self.check_enabled,
             "preemption_bound": self.preemption_bound, "max_execs": self.max_execs,
             "max_model_states": self.max_model_states, "max_violations_per_program": self.max_violations_per_program,
+            "max_programs": if self.max_programs == usize::MAX { serde_json::Value::Null } else { serde_json::json!(self.max_programs) },
+            "stop_children": self.stop_children,
         })
         .serialize(s)
     }
@@ -359,6 +401,8 @@ pub fn mode_from_json(v: &serde_json::Value) -> Mode {
         max_execs: v["max_execs"].as_u64().unwrap(),
         max_model_states: v["max_model_states"].as_u64().unwrap() as usize,
         max_violations_per_program: v["max_violations_per_program"].as_u64().unwrap() as usize,
+        max_programs: v["max_programs"].as_u64().map(|x| x as usize).unwrap_or(usize::MAX),
+        stop_children: v["stop_children"].as_bool().unwrap_or(false),
     }
 }
 
@@ -457,7 +501,7 @@ pub fn worker_main(fam: &dyn FamilyDyn, set: &str, mode: &Mode, shard: usize, ns
     let mut orig = crate::common::mute_stderr();
     crate::common::silence_panics();
     let t0 = std::time::Instant::now();
-    let n = fam.len(set);
+    let n = fam.len(set).min(mode.max_programs);
     let out = std::io::stdout();
     let idxs: Vec<usize> = match only {
         Some(i) => vec![i],
@@ -506,7 +550,7 @@ fn spawn_worker(fam: &str, set: &str, mode: &Mode, shard: usize, nshards: usize,
 /// Run one family/set in `nshards` worker processes and aggregate. A worker that dies is attributed
 /// to the program it was running, which is re-run alone to confirm; the shard then continues.
 pub fn run_family(fam: &dyn FamilyDyn, set: &str, mode: &Mode, nshards: usize, deadline_s: f64) -> FamAgg {
-    let total = fam.len(set);
+    let total = fam.len(set).min(mode.max_programs);
     let mut agg = FamAgg {
         family: fam.name().to_string(),
         set: set.to_string(),
